@@ -58,6 +58,10 @@ def main():
             if has_demo:
                 rec["demo_unmodified"] = run([PY, "demo.py"], d)[0]
             ap = subprocess.run(["git", "-C", wt, "apply", os.path.join(d, "patch.diff")], capture_output=True, text=True)
+            if ap.returncode != 0:      # the tree moved on since the patch was written (fix: commits): merge
+                ap = subprocess.run(["git", "-C", wt, "apply", "--3way", os.path.join(d, "patch.diff")], capture_output=True, text=True)
+                subprocess.run(["git", "-C", wt, "reset", "-q"])
+                rec["applied_3way"] = True
             if ap.returncode != 0:
                 rec["applies"] = False
                 rec["apply_err"] = ap.stderr[-200:]
